@@ -14,7 +14,8 @@ EXPLANATION = (
     "expression, a SymPy constant, or an expression in other constants) is folded by the static dimension engine over SymPy's "
     "unit/constant definitions (read from SymPy's source files, never imported) into an SI value and a dimension vector. "
     "R1 the dimension equals the expected one; R2 the SI value is within the stated precision of the CODATA-2018/IAU reference; "
-    "R3 the seven identities of the property hold on the folded values; R4 every constant of the reference table is still defined and __all__ names only defined constants (all public constants are checked, whether or not listed in __all__).")
+    "R3 the seven identities of the property hold on the folded values; R4 every constant of the reference table is still defined and __all__ names only defined constants (all public constants are checked, whether or not listed in __all__); R5 the unit system's per-quantity tables are "
+    "written only by Quantity.__init__ for `self`, so a constant's value cannot change after import; I3 quantity names come from one process-wide counter.")
 ASSUMPTIONS = [
     "reference values: CODATA 2018 / IAU 2015 nominal values hard-coded in sa/rules/c20.py with a per-constant relative tolerance "
     "equal to the precision the source literal states (>= 1e-9 for exact SI-defining constants)",
